@@ -185,7 +185,10 @@ func (m *c07Mon) onPut(n *c13Node, after bool, b *common.Beacon, err error) {
 		} else if !bytes.Equal(m.seed, b.Signature) {
 			m.run.Violation("C07/genesis-beacon-differs", fmt.Sprintf("node %d stores a genesis beacon %s, others %s", n.idx, vfHex(b.Signature), vfHex(m.seed)), m.ci(info))
 		}
-		m.has[n.idx], m.last[n.idx] = true, 0
+		// a daemon re-created on its folder puts the (identical) genesis beacon again: its head stays where it was
+		if !m.has[n.idx] {
+			m.has[n.idx], m.last[n.idx] = true, 0
+		}
 		return
 	}
 	if verr := m.sch.VerifyBeacon(b, m.pub); verr != nil {
@@ -843,6 +846,28 @@ func c07Refused(run *vfRun, m *c07Mon, p c07Params, dir string, ns []*c13Node, t
 		return
 	}
 	m.compareIdentitySig(sigID, refPkt, ids, "after-further-rounds")
+
+	// observation (no verdict): what the DKG layer makes of it. Its databases recorded the refused epoch as
+	// completed, and proposals take the beacon period from that record: can the group still reshare?
+	if p.Kind == "refused-period" {
+		honest := ns[1]
+		_, err := nt.runReshare(c13Reshare{leader: honest, remaining: append([]*c13Node{honest}, append(append([]*c13Node(nil), ns[:1]...), ns[2:]...)...), thr: thr, coreRefuses: true})
+		outcome := "dkg-layer-completed-again"
+		if !errors.Is(err, errC13CoreRefusedOutput) {
+			outcome = "did-not-complete: " + c13Short(fmt.Sprint(err), 200)
+		}
+		ids2, ierr := m.identities(ns)
+		if ierr == nil {
+			m.compareIdentitySig(sigID, refPkt, ids2, "after-a-second-reshare-proposed-by-an-honest-member")
+			if len(ids2) > 0 && ids2[0].pkt.Period == refPkt.Period {
+				outcome += "/core-still-on-the-old-group"
+			}
+		}
+		filesCheck("after-a-second-reshare-proposed-by-an-honest-member")
+		run.Seen("second_reshare_after_refusal", outcome)
+		run.Note(fmt.Sprintf("case %d: after the refused reshare every member's dkg.db records epoch 2 (period %s) as completed while core runs the epoch-1 group; a further reshare proposed by an honest member: %s",
+			p.CaseIndex, 2*nt.period, outcome))
+	}
 
 	// a daemon restarted on x's folder serves the old chain info
 	if ok, dump := nt.stopNode(x); !ok {
